@@ -131,6 +131,9 @@ def run_world(pair, r, res, tier, crash_only=False):
                     # accepted: everything the replica now believes must be the writer's
                     ib, _ = pair.do("info X")
                     t = ib.split(" ")
+                    if t[4] != "0":
+                        found.append(dict(key="accepted:fork", what="altered proof (%s) accepted; replica now reports fork %s which the writer never signed" % (label, t[4]), replay=rep))
+                        continue
                     if (int(t[1]), int(t[2])) not in signed["lengths"]:
                         found.append(dict(key="accepted:length", what="altered proof (%s) accepted; replica now reports length/byte length %s %s which the writer never signed" % (label, t[1], t[2]), replay=rep))
                         continue
